@@ -57,7 +57,13 @@ var c09BadValues = []string{"bar", "1,5", "1.2.3", "5 g", "12abc", "--5", "1e", 
 func genC09Malformed(t *rapid.T, names []string, label string) string {
 	indent := vIndents[rapid.IntRange(0, len(vIndents)-1).Draw(t, label+".indent")]
 	nm := c09SafeName(names[rapid.IntRange(0, len(names)-1).Draw(t, label+".name")])
-	switch rapid.IntRange(0, 8).Draw(t, label+".kind") {
+	switch rapid.IntRange(0, 11).Draw(t, label+".kind") {
+	case 9: // a quoted name with the value glued to the closing quote and colon
+		return indent + "\"" + nm + "\":" + fmt.Sprint(rapid.IntRange(0, 99).Draw(t, label+".v")) + []string{"", ".5"}[rapid.IntRange(0, 1).Draw(t, label+".frac")]
+	case 10: // a quoted name and nothing else
+		return indent + "\"" + nm + "\""
+	case 11: // list item, quoted name, glued value
+		return indent + "- \"" + nm + "\":" + fmt.Sprint(rapid.IntRange(0, 99).Draw(t, label+".v"))
 	case 6: // the only separator before the value is a blank that is not an ASCII blank
 		return indent + nm + ":" + []string{"\u00a0", "\u3000", "\u2003", "\u00a0\u00a0"}[rapid.IntRange(0, 3).Draw(t, label+".nbsp")] + fmt.Sprint(rapid.IntRange(0, 99).Draw(t, label+".v"))
 	case 7: // a list dash in column 0 glued to the name
@@ -170,6 +176,13 @@ func checkC09(c c09Case, ctx *vCtx) *vFailure {
 		{[]string{"reg", "--use-old-reg-reporter"}, true, true},
 		{[]string{"reg", "--internal-template-name", "left-aligned"}, true, true},
 		{[]string{"reg", "-s", x}, true, true},
+		{[]string{"reg", "-s", x, "-g"}, true, true},
+		{[]string{"reg", "-f", "."}, true, true},
+		{[]string{"reg", "-f", "foo", "--csv"}, true, true},
+		{[]string{"reg", "--totals-only"}, true, true},
+		{[]string{"reg", "--no-totals", "--shorten"}, true, true},
+		{[]string{"bal", "-c"}, true, true},
+		{[]string{"bal", "--collapse-last", "-s", x}, true, true},
 		{[]string{"bal"}, true, true},
 		{[]string{"bal", "-s", x}, true, true},
 		{[]string{"csv", "log"}, false, true},
